@@ -115,6 +115,13 @@ CLAIMED = {
         "DESIGN.md section 8, C07",
         "seeded rotation schedules with message faults; probe-after-every-step invariant + bounded freshness",
     ),
+    "C17": (
+        "exploration",
+        "7/8 of the runs drive the real BeaconSerializer over the simulated clock and real files: 1-4 beacons for address lists of 0-8 IPv4 / 0-4 IPv6 entries, writer clocks inside, at the edge of and beyond the reader's age limit (50 as in the node, 0, 65535, around 32768, any), 200 passwords incl. empty, reader hour following the run index (all 65536 stamps over a thorough batch) or next to the 16 bit wrap; text with separators inside beacons and stray / partial / overlapping markers; decoding directly or through a file that is torn at any byte, garbage or missing. 1/8 of the runs are 2-5 real nodes that know each other only through beacon files maintained by a publisher actor, with clocks anywhere in the hour cycle, skews up to +-160 h and three passwords. Oracles: clean texts yield exactly the concatenated address lists (IPv4 first) of the beacons with the reader's password and circular hour distance <= limit; torn files a whole-beacon prefix; with stray markers every genuine beacon is still found in order; no unwind on any text; every BeaconLoaded probe of a node equals the reference over its file; nodes with a common password and clocks within 48 h meet.",
+        "Trusted: simulator clock seam, /dev/shm as the file system, the publisher actor. Texts whose only marker occurrences are those of genuine beacons are compared exactly; the one-byte beacon checksum makes a random chunk pass with probability 1/256, so texts with deliberately placed stray markers are checked for containment only.",
+        "DESIGN.md section 8, C17",
+        "seeded beacons x clocks x texts x file faults against a reference; beacon-only discovery between real nodes",
+    ),
     "C18": (
         "exploration",
         "Node level: 1-3 key pairs per run produced by the real key generation - random keys from seeds with 0-4 leading zero bytes (optionally searched until the public key starts with a zero byte), password keys from a dictionary incl. empty, blank, unicode, NUL and 1 KiB passwords, each derived twice - and 2-5 real nodes configured from the printed text (private key with or without public key; password nodes by password or by the printed key, so one password appears in two forms), trusted sets any subset of the printed public keys. Oracles: key generation and public_key_from_private_key agree and never fail on generated text; every node starts; after 12 s on a reliable network exactly the mutually trusting pairs (by key material) are connected; a crashed and restarted node uses the same public key as before and as printed.",
